@@ -4,7 +4,7 @@ the suite passes with the patch, the demo fails with it and passes without it; t
 usage: seedeval.py [dir ...]   (default: all under /tmp/seed-out)"""
 import json, os, re, shutil, subprocess, sys, glob
 V = os.path.dirname(os.path.dirname(os.path.abspath(__file__)))
-OUT = "/tmp/seed-out"
+OUT = os.environ.get("SEED_OUT", "/tmp/seed-out")
 PKGDIR = {"fasta": "formats/fasta", "fastq": "formats/fastq", "sam": "formats/sam", "bed": "formats/bed", "newick": "formats/newick",
           "smtext": "formats/smtext", "align": "align", "mash": "mash", "regions": "regions", "sequtil": "sequtil", "trie": "trie"}
 ENV = dict(os.environ, GOFLAGS="-mod=readonly", GOPROXY="off", GOSUMDB="off", GOTOOLCHAIN="local")
@@ -13,7 +13,7 @@ def sh(cmd, cwd=None, env=ENV, timeout=900):
     return p.returncode, p.stdout + p.stderr
 def main():
     dirs = sys.argv[1:] or sorted(d for d in glob.glob(OUT + "/C*-*") if os.path.isdir(d))
-    wt = os.path.join(os.path.expanduser("~"), ".cache", "verif-scratch", "wt-eval")
+    wt = os.path.join(os.path.expanduser("~"), ".cache", "verif-scratch", "wt-eval-%d" % os.getpid())
     sh(f"git -C /repo worktree remove --force {wt}")
     shutil.rmtree(wt, ignore_errors=True)
     rc, out = sh(f"git -C /repo worktree add --detach {wt} HEAD")
@@ -45,7 +45,8 @@ def main():
                 r["demo_tail"] = out[-300:]
                 os.remove(dst)
             # run the property's check against the patched tree
-            env = dict(os.environ, VERIF_REPO=wt)
+            # evidence and replay files of runs against a patched tree go to a scratch directory, not to /verif
+            env = dict(os.environ, VERIF_REPO=wt, VERIF_EVIDENCE_DIR=os.path.join(OUT, "evidence"), VERIF_REPLAYS_DIR=os.path.join(OUT, "replays"))
             rc, out = sh(f"./check {prop} --tier quick", cwd=V, env=env, timeout=1800)
             r["check_exit"] = rc
             r["check_lines"] = [l[:300] for l in out.splitlines() if l.startswith(("VIOLATION", "UNDECIDED", "engine error", "KNOWN"))][:6]
